@@ -354,3 +354,42 @@ V("C02-rename-loopvar-equiv", "C02", [], [(BASE, """        for reverse_product 
             *(fct.items() for fct in reversed(factors))
         ):
             product = rp[::-1]""")])
+
+# ----------------------------------------------------------------------------------------- C03
+STERM = "formulaic/materializers/types/scoped_term.py"
+SFACT = "formulaic/materializers/types/scoped_factor.py"
+V("C03-spanned-simplified", "C03", ["C03.R1"], [(BASE, "                spanned.update(term_span)", "                spanned.update(scoped_terms)")])
+V("C03-spanned-not-updated", "C03", ["C03.R1"], [(BASE, "                spanned.update(term_span)\n", "")])
+V("C03-spanned-not-subtracted", "C03", ["C03.R1"], [(BASE, """                term_span = (
+                    self._get_scoped_terms_spanned_by_evaled_factors(evaled_factors)
+                    - spanned
+                )""", """                term_span = (
+                    self._get_scoped_terms_spanned_by_evaled_factors(evaled_factors)
+                )""")])
+V("C03-spanned-per-term", "C03", ["C03.R1"], [(BASE, "        spanned: set[ScopedTerm] = set()\n\n        for term in terms:\n", "        for term in terms:\n            spanned: set[ScopedTerm] = set()\n")])
+V("C03-span-no-one", "C03", ["C03.R2"], [(BASE, "                factors.append((ScopedFactor(factor, reduced=True), 1))", "                factors.append((ScopedFactor(factor, reduced=True),))")])
+V("C03-span-numeric-reduced", "C03", ["C03.R2"], [(BASE, "                factors.append((ScopedFactor(factor),))", "                factors.append((ScopedFactor(factor, reduced=True),))")])
+V("C03-merge-any-factor", "C03", ["C03.R3"], [(BASE, "                if factor_new.reduced:\n", "                if True:\n")])
+V("C03-merge-guard-and", "C03", ["C03.R3"], [(BASE, "if len(factors) - 1 != len(cofactors) or len(factors_diff) != 1:", "if len(factors) - 1 != len(cofactors) and len(factors_diff) != 1:")])
+V("C03-merge-keeps-reduced", "C03", ["C03.R3"], [(BASE, "ScopedFactor(factor_new.factor, reduced=False)\n                                        if factor == factor_new", "ScopedFactor(factor_new.factor, reduced=True)\n                                        if factor == factor_new")])
+V("C03-order-descending", "C03", ["C03.R3"], [(BASE, "for scoped_term in sorted(scoped_terms, key=lambda x: len(x.factors)):", "for scoped_term in sorted(scoped_terms, key=lambda x: -len(x.factors)):")])
+V("C03-scopedterm-eq-scale", "C03", ["C03.R4"], [(STERM, "            return sorted(self.factors) == sorted(other.factors)", "            return sorted(self.factors) == sorted(other.factors) and self.scale == other.scale")])
+V("C03-scopedterm-eq-ordered", "C03", ["C03.R4"], [(STERM, "            return sorted(self.factors) == sorted(other.factors)", "            return self.factors == other.factors")])
+V("C03-scopedfactor-eq-ignores-reduced", "C03", ["C03.R4"], [(SFACT, "            return self.factor == other.factor and self.reduced == other.reduced", "            return self.factor == other.factor")])
+V("C03-sas-drop-first", "C03", ["C03.R5"], [(CONTRASTS, "        return self.base if self.base is not UNSET else levels[-1]", "        return self.base if self.base is not UNSET else levels[0]")],
+  "SAS coding drops the last level but the full encoding would drop the first")
+V("C03-treatment-base-ignored", "C03", ["C03.R5"], [(CONTRASTS, "        return self.base if self.base is not UNSET else levels[0]", "        return levels[0]")])
+V("C03-delete-from-cache", "C03", ["C03.R6"], [(BASE, "                encoded.copy(),\n                metadata=encoded.__formulaic_metadata__,  # type: ignore\n                reduced=True,", "                encoded,\n                metadata=encoded.__formulaic_metadata__,  # type: ignore\n                reduced=True,")])
+V("C03-delete-always", "C03", ["C03.R6"], [(BASE, "            and encoded.__formulaic_metadata__.spans_intercept  # type: ignore\n            and reduced_rank\n", "            and encoded.__formulaic_metadata__.spans_intercept  # type: ignore\n")])
+V("C03-encode-always-full", "C03", ["C03.R6"], [(BASE, "                                    reduced_rank=scoped_factor.reduced,", "                                    reduced_rank=False,")])
+V("C03-rename-span-equiv", "C03", [], [(BASE, """                term_span = (
+                    self._get_scoped_terms_spanned_by_evaled_factors(evaled_factors)
+                    - spanned
+                )
+                scoped_terms: Iterable[ScopedTerm] = self._simplify_scoped_terms(
+                    term_span
+                )
+                spanned.update(term_span)""", """                new_span = self._get_scoped_terms_spanned_by_evaled_factors(evaled_factors) - spanned
+                scoped_terms: Iterable[ScopedTerm] = self._simplify_scoped_terms(new_span)
+                spanned.update(new_span)""")])
+V("C03-hash-frozenset-equiv", "C03", [], [(STERM, "        return hash(tuple(sorted(self.factors)))", "        return hash(frozenset(self.factors))")])
